@@ -412,6 +412,9 @@ def gen_inference_spec(tape, disc_kinds=('disc', 'dist'), max_priors=3, extra_sh
                               'salt': 0.1 * (j + 1)}})
         snames.append('s%d' % j)
     dk = tape.choice('disc_kind', list(disc_kinds))
+    # the discrepancy may list its summaries in another order than they were created in
+    dpar = tape.shuffle('disc_parent_order', snames) if tape.chance('disc_parents_permuted', 1, 2) \
+        else list(snames)
     if dk == 'disc':
         cfg = {'node': 'd', 'kind': 'disc', 'mode': mode, 'salt': 0.05}
         if ties and tape.chance('lattice', 1, 2):
@@ -419,7 +422,7 @@ def gen_inference_spec(tape, disc_kinds=('disc', 'dist'), max_priors=3, extra_sh
                 tape.choice('lattice_s', [2, 4, 10])
         if ties and tape.chance('inf', 1, 3):
             cfg['inf_p'] = tape.choice('inf_p', [0.1, 0.3, 0.6])
-        nodes.append({'name': 'd', 'kind': 'disc', 'parents': snames, 'cfg': cfg})
+        nodes.append({'name': 'd', 'kind': 'disc', 'parents': dpar, 'cfg': cfg})
     elif dk == 'dist':
         width = sum(int(np.prod(n['cfg']['shape'])) if n['cfg']['shape'] else 1
                     for n in nodes if n['kind'] == 'sum')
@@ -434,9 +437,9 @@ def gen_inference_spec(tape, disc_kinds=('disc', 'dist'), max_priors=3, extra_sh
             A = np.eye(width) + 0.1 * np.arange(width * width).reshape(width, width) / max(
                 1, width * width)
             kw['VI'] = A @ A.T
-        nodes.append({'name': 'd', 'kind': 'dist', 'parents': snames, 'metric': metric, 'kw': kw})
+        nodes.append({'name': 'd', 'kind': 'dist', 'parents': dpar, 'metric': metric, 'kw': kw})
     elif dk == 'adist':
-        nodes.append({'name': 'd', 'kind': 'adist', 'parents': snames})
+        nodes.append({'name': 'd', 'kind': 'adist', 'parents': dpar})
     extras = []
     if extra_shapes:
         for j in range(tape.int('n_extra', 0, 2)):
